@@ -140,6 +140,13 @@ def _res_con(rng, b, c, H, **kw):
                      start=rng.choice((0, 0, 2)), offset=rng.choice((0, 0, 1)), end=rng.choice(([], [], [4])), **kw)
     if res["t"] == "cumul":
         return b.con("ResourceUnavailable", res=res, intervals=[[1, 2]], **kw)
+    if k in ("interrupted", "pinterrupted") and getattr(c, "no_interruption", False):
+        # (objective problems: an interrupted variable task with a max_duration is the open finding F1 -- the optimum
+        # over V(P) is then not reachable by the implementation; F1 is judged by C05 / C06 / C10, not by C07)
+        k = "unavail"
+    if k == "unavail" and getattr(c, "no_interruption", False):
+        lo = rng.choice((0, 1, 2))
+        return b.con("ResourceUnavailable", res=res, intervals=[[lo, lo + rng.choice((1, 2))]], **kw)
     if k in ("interrupted", "pinterrupted"):
         # at most ONE interruption constraint per problem: two of them on one resource are the open finding F9,
         # exercised on purpose by the C04 family (tag two-interruption-constraints) and kept out of the others
@@ -310,6 +317,7 @@ def one(rng, focus):
     b = PB(H, tag="mixed-" + focus)
     c = _Ctx()
     c.costs = focus in ("indicator", "objective")
+    c.no_interruption = focus == "objective"
     nt = rng.choice((2, 3, 3))
     ts, _ = _tasks(rng, b, nt, want_optional=focus == "optional")
     if focus == "optional" and not any(t["optional"] for t in b.p["tasks"]):
